@@ -780,6 +780,20 @@ func generateVictims(r *rand.Rand, profile string) *Scenario {
 		}
 	}
 	sc.Queues = []Queue{dep, qa, qb}
+	// a second department with a claimant of its own: for that "foreign" reclaimer the lowest common ancestor is
+	// the root, so the victims' min-runtime is resolved from their DEPARTMENT (often unset), while the sibling
+	// queue qb resolves it from the victims' leaf - the same victim job has two different answers in one cycle
+	foreign := 0
+	if profile == "minrt" && chance(0.4) {
+		gq := pick(1000, 2000)
+		sc.Queues = append(sc.Queues, Queue{Name: "d2", Parent: 0, Prio: 100, GQ: gq, GL: -1, GW: 1, CQ: -1, CL: -1, MQ: -1, ML: -1},
+			Queue{Name: "qc", Parent: 4, Prio: 100, GQ: gq, GL: -1, GW: 1, CQ: -1, CL: -1, MQ: -1, ML: -1})
+		foreign = 5
+	}
+	if chance(0.25) {
+		// the API refuses the second or third eviction of the run (statements with several victims)
+		sc.Cfg.EvictFail = []int{pick(2, 2, 3)}
+	}
 	used := make([]int, nn)
 	k := 0
 	place := func() int {
@@ -821,8 +835,11 @@ func generateVictims(r *rand.Rand, profile string) *Scenario {
 		}
 		free -= size
 	}
-	// claimants: reclaimers in qb, optionally a higher-priority preemptor in qa
+	// claimants: reclaimers in qb, optionally a higher-priority preemptor in qa, the foreign reclaimer in qc
 	nc := pick(1, 1, 2)
+	if foreign > 0 {
+		nc++
+	}
 	for c := 0; c < nc; c++ {
 		size := pick(1, 1, 2, 3)
 		k++
@@ -830,6 +847,9 @@ func generateVictims(r *rand.Rand, profile string) *Scenario {
 		prio := pick(50, 75)
 		if chance(0.3) {
 			q, prio = 2, 100
+		}
+		if foreign > 0 && c == 0 {
+			q, prio, size = foreign, 50, pick(1, 1, 2)
 		}
 		pre := pick(0, 1)
 		if prio >= 100 {
